@@ -37,6 +37,10 @@ OMEGA = "ω"  # stands for "some key no alternative declares"
 NELEMS = 2  # explicit leading elements of an array; the rest is the generic element
 
 
+def _sum(ts: List[str]) -> str:
+    return "0" if not ts else ts[0] if len(ts) == 1 else "(+ " + " ".join(ts) + ")"
+
+
 def q(name: str) -> str:
     return "|" + name.replace("|", "/").replace("\\", "/") + "|"
 
@@ -82,6 +86,50 @@ class VJsonMethod(V):
     name: str
     path: str
     kind = "jsonmethod"
+
+
+@dataclass
+class VKeySet(V):
+    """A constant set / frozenset of strings (set literal, set([...]), frozenset((...)))."""
+
+    keys: frozenset
+    kind = "constset"
+
+
+@dataclass
+class VJsonKeys(V):
+    """The key set of a JSON object node: set(obj), frozenset(obj), obj.keys()."""
+
+    path: str
+    kind = "jsonkeys"
+
+
+@dataclass
+class VKeyExpr(V):
+    """keys(path) - K ('diff'), K - keys(path) ('rdiff') or keys(path) & K ('inter')."""
+
+    path: str
+    keys: frozenset
+    op: str
+    kind = "keyexpr"
+
+
+@dataclass
+class VSetMethod(V):
+    recv: Any
+    name: str
+    kind = "setmethod"
+
+
+OMEGA_KEY_MARK = "⟦unnamed-key⟧"
+
+
+@dataclass
+class VOmegaKey(VStr):
+    """The name of a key of `path` that the code never names (iteration over the keys of an object).  Only comparisons
+    with string literals are defined on it (they are false, and the literal becomes a named key of the node)."""
+
+    path: str = ""
 
 
 class Site:
@@ -163,9 +211,36 @@ class Site:
     def decl_lines(self) -> List[str]:
         return [f"(declare-const {n} {s})" for n, s in self.decls.items()]
 
+    def key_axioms(self) -> str:
+        """nonempty(p) / nkeys(p) in terms of the presence bits of p (named keys and, where it exists, the ω bit)."""
+        cs = []
+        for n, s in list(self.decls.items()):
+            if n.endswith("′|"):
+                continue
+            for kind in ("|nonempty ", "|nkeys "):
+                if n.startswith(kind):
+                    p = n[len(kind) : -1]
+                    ks = self.keys.get(p, set())
+                    named = [self.sym(f"has {p} :: {k}", "Bool") for k in sorted(ks) if k != OMEGA]
+                    om = self.sym(f"has {p} :: {OMEGA}", "Bool") if OMEGA in ks else None
+                    if kind == "|nonempty ":
+                        hs = named + ([om] if om else [])
+                        if hs:
+                            cs.append(Implies(Or(*hs), n))
+                            if om:
+                                cs.append(Implies(n, Or(*hs)))
+                    else:
+                        total = _sum([Ite(h, "1", "0") for h in named])
+                        if om:
+                            cs.append(Implies(Not(om), Eq(n, total)))
+                            cs.append(Implies(om, smt.Gt(n, total)))
+                        else:
+                            cs.append(smt.Ge(n, total))
+        return And(*cs)
+
     def wellformed(self) -> str:
         """Range constraints of every tag / length symbol."""
-        cs = []
+        cs = [self.key_axioms()]
         for n, s in list(self.decls.items()):
             if n.startswith("|tag "):
                 cs.append(And(smt.Le("0", n), smt.Le(n, "6")))
@@ -506,8 +581,176 @@ class HookInterp(Interp):
         k = ctx.choose(conds)
         return ["obj", "arr", "str", "scalar"][k]
 
+    # -- key sets ---------------------------------------------------------------------------
+    def _const_keys(self, ctx: Ctx, v: V) -> Optional[frozenset]:
+        v = force(ctx, v)
+        if isinstance(v, VKeySet):
+            return v.keys
+        if isinstance(v, (VList, VTuple)):
+            out = []
+            for it in v.items:
+                it = force(ctx, it)
+                if isinstance(it, VStr) and not isinstance(it, VOmegaKey) and smt.is_str_lit(it.t):
+                    out.append(smt.sexpr_to_py(it.t))
+                else:
+                    return None
+            return frozenset(out)
+        return None
+
+    def _json_keys(self, ctx: Ctx, v: V) -> Optional[str]:
+        """Path of the object whose keys `v` iterates (a JSON object node, set(obj), obj.keys()); None if v is not one."""
+        if isinstance(v, VJsonKeys):
+            return v.path
+        if isinstance(v, VJson):
+            kind = self.node_class(ctx, v)
+            if kind == "obj":
+                return v.path
+            if kind == "scalar":
+                raise PyRaise("TypeError", [], "object is not iterable")
+            raise Unsupported(f"key set of a JSON {kind}")
+        return None
+
+    def _named(self, p: str, keys) -> None:
+        for k in keys:
+            self.site.has(p, k)
+
+    def _subset(self, p: str, K: frozenset) -> str:
+        """keys(p) <= K: no key outside K is present (resolved when the set of named keys of p is final)."""
+        self._named(p, K)
+        return self.site.strict_slot(p, frozenset(K))
+
+    def _superset(self, p: str, K: frozenset) -> str:
+        return And(*[self.site.has(p, k) for k in sorted(K)])
+
+    def _disjoint(self, p: str, K: frozenset) -> str:
+        return And(*[Not(self.site.has(p, k)) for k in sorted(K)])
+
+    def set_relation(self, ctx: Ctx, op: str, a: V, b: V) -> V:
+        """op in le ge lt gt eq ne disjoint, between key sets."""
+        ca, cb = self._const_keys(ctx, a), self._const_keys(ctx, b)
+        if ca is not None and cb is not None:
+            r = {"le": ca <= cb, "ge": ca >= cb, "lt": ca < cb, "gt": ca > cb, "eq": ca == cb, "ne": ca != cb, "disjoint": ca.isdisjoint(cb)}[op]
+            return VBool(TRUE if r else FALSE)
+        pa = self._json_keys(ctx, a) if ca is None else None
+        pb = self._json_keys(ctx, b) if cb is None else None
+        if pa is not None and cb is not None:
+            p, K = pa, cb
+        elif pb is not None and ca is not None:
+            p, K = pb, ca
+            op = {"le": "ge", "ge": "le", "lt": "gt", "gt": "lt"}.get(op, op)
+        else:
+            raise Unsupported(f"set relation {op} between {a.kind} and {b.kind}")
+        self._touch(VJson(p))
+        if op == "le":
+            t = self._subset(p, K)
+        elif op == "ge":
+            t = self._superset(p, K)
+        elif op == "lt":
+            t = And(self._subset(p, K), Not(self._superset(p, K)))
+        elif op == "gt":
+            t = And(self._superset(p, K), Not(self._subset(p, K)))
+        elif op == "eq":
+            t = And(self._subset(p, K), self._superset(p, K))
+        elif op == "ne":
+            t = Not(And(self._subset(p, K), self._superset(p, K)))
+        else:
+            t = self._disjoint(p, K)
+        return VBool(t)
+
+    def set_binop(self, ctx: Ctx, op: str, a: V, b: V) -> V:
+        ca, cb = self._const_keys(ctx, a), self._const_keys(ctx, b)
+        if ca is not None and cb is not None:
+            return VKeySet({"sub": ca - cb, "and": ca & cb, "or": ca | cb, "xor": ca ^ cb}[op])
+        pa = self._json_keys(ctx, a) if ca is None else None
+        pb = self._json_keys(ctx, b) if cb is None else None
+        if pa is not None and cb is not None:
+            self._touch(VJson(pa))
+            self._named(pa, cb)
+            if op == "sub":
+                return VKeyExpr(pa, cb, "diff")
+            if op == "and":
+                return VKeyExpr(pa, cb, "inter")
+        if pb is not None and ca is not None:
+            self._touch(VJson(pb))
+            self._named(pb, ca)
+            if op == "sub":
+                return VKeyExpr(pb, ca, "rdiff")
+            if op == "and":
+                return VKeyExpr(pb, ca, "inter")
+        raise Unsupported(f"set operation {op} on {a.kind},{b.kind}")
+
+    def _keyexpr_truth(self, v: "VKeyExpr") -> str:
+        if v.op == "diff":
+            return Not(self._subset(v.path, v.keys))
+        if v.op == "rdiff":
+            return Not(self._superset(v.path, v.keys))
+        return Not(self._disjoint(v.path, v.keys))
+
+    def compare(self, ctx: Ctx, op: ast.cmpop, a: V, b: V) -> V:
+        sets = (VKeySet, VJsonKeys)
+        if isinstance(a, sets) or isinstance(b, sets):
+            name = {ast.LtE: "le", ast.GtE: "ge", ast.Lt: "lt", ast.Gt: "gt", ast.Eq: "eq", ast.NotEq: "ne"}.get(type(op))
+            if name is not None:
+                if not (isinstance(a, sets) and isinstance(b, sets)):
+                    # a set compared with a non-set: == is False, ordering raises
+                    if name in ("eq", "ne"):
+                        return VBool(FALSE if name == "eq" else TRUE)
+                    raise PyRaise("TypeError", [], "ordering between a set and a non-set")
+                return self.set_relation(ctx, name, a, b)
+        return super().compare(ctx, op, a, b)
+
+    def binop(self, ctx: Ctx, op: ast.operator, a: V, b: V) -> V:
+        sets = (VKeySet, VJsonKeys)
+        if isinstance(a, sets) or isinstance(b, sets):
+            name = {ast.Sub: "sub", ast.BitAnd: "and", ast.BitOr: "or", ast.BitXor: "xor"}.get(type(op))
+            if name is None or not (isinstance(a, sets) and isinstance(b, sets)):
+                raise PyRaise("TypeError", [], "unsupported operand type(s) for a set operator")
+            return self.set_binop(ctx, name, a, b)
+        return super().binop(ctx, op, a, b)
+
+    def builtin_hook(self, ctx: Ctx, name: str, args: List[V], kwargs):
+        if name in ("set", "frozenset") and not kwargs:
+            if not args:
+                return VKeySet(frozenset())
+            a = force(ctx, args[0])
+            c = self._const_keys(ctx, a)
+            if c is not None:
+                return VKeySet(c)
+            p = self._json_keys(ctx, a)
+            if p is not None:
+                return VJsonKeys(p)
+            raise Unsupported(f"{name}() of {a.kind}")
+        return None
+
+    def keys_anyall(self, ctx: Ctx, is_any: bool, p: str, pred_term) -> V:
+        """any()/all() of a predicate over the KEYS of the object at p.  The predicate must be decided, for a key the code
+        does not name, by comparisons with string literals (each literal then becomes a named key of p); the result is
+        exact: named keys one by one, all other keys through the late-resolved 'a key outside the named ones is present'."""
+        S = self.site
+        self._touch(VJson(p))
+        npc = len(ctx.pc)
+        om = VOmegaKey(OMEGA_KEY_MARK, p)
+        c_om = pred_term(om)
+        if c_om not in (TRUE, FALSE) or any(OMEGA_KEY_MARK in c for c in ctx.pc[npc:]):
+            raise Unsupported("predicate over the keys of an object is not decided by the literals it names")
+        named = sorted(k for k in S.keys.get(p, ()) if k != OMEGA)
+        per = []
+        for k in named:
+            t = pred_term(VStr(smt.sstr(k)))
+            per.append((S.has(p, k), t))
+        outside = Not(S.strict_slot(p, frozenset(named)))
+        if is_any:
+            return VBool(Or(*[And(h, t) for h, t in per], And(c_om, outside)))
+        return VBool(And(*[Implies(h, t) for h, t in per], Or(c_om, Not(outside))))
+
     # -- overrides
     def truth(self, ctx: Ctx, v: V) -> bool:
+        if isinstance(v, VKeySet):
+            return bool(v.keys)
+        if isinstance(v, VJsonKeys):
+            return ctx.branch(self.site.sym(f"nonempty {v.path}", "Bool"))
+        if isinstance(v, VKeyExpr):
+            return ctx.branch(self._keyexpr_truth(v))
         if isinstance(v, VJson):
             self._touch(v)
             S = self.site
@@ -584,6 +827,16 @@ class HookInterp(Interp):
         return super().op_is(ctx, a, b)
 
     def _rich(self, ctx: Ctx, a: V, b: V, dunder: str):
+        if isinstance(a, VOmegaKey) or isinstance(b, VOmegaKey):
+            k, o = (a, b) if isinstance(a, VOmegaKey) else (b, a)
+            o = force(ctx, o)
+            if dunder in ("__eq__", "__ne__"):
+                if isinstance(o, VStr) and not isinstance(o, VOmegaKey) and smt.is_str_lit(o.t):
+                    self.site.has(k.path, smt.sexpr_to_py(o.t))  # the literal is a named key from now on: the unnamed key differs from it
+                    return VBool(FALSE if dunder == "__eq__" else TRUE)
+                if not isinstance(o, (VStr, VJson)):
+                    return VBool(FALSE if dunder == "__eq__" else TRUE)
+            raise Unsupported("comparison of an unnamed key with a non-literal")
         if isinstance(a, VJson) or isinstance(b, VJson):
             if dunder not in ("__eq__", "__ne__"):
                 raise Unsupported("ordering on json value")
@@ -609,6 +862,27 @@ class HookInterp(Interp):
         return super()._rich(ctx, a, b, dunder)
 
     def contains_hook(self, ctx: Ctx, x: V, coll: V) -> V:
+        if isinstance(coll, VKeySet):
+            x = force(ctx, x)
+            lits = sorted(coll.keys)
+            if isinstance(x, VOmegaKey):
+                self._named(x.path, lits)
+                return VBool(FALSE)
+            if isinstance(x, VStr):
+                if smt.is_str_lit(x.t):
+                    return VBool(TRUE if smt.sexpr_to_py(x.t) in coll.keys else FALSE)
+                return VBool(Or(*[Eq(x.t, smt.sstr(k)) for k in lits]))
+            if isinstance(x, VJson):
+                self._touch(x)
+                S0 = self.site
+                return VBool(And(Eq(S0.tag(x.path), "4"), Or(*[Eq(S0.s(x.path), smt.sstr(k)) for k in lits])))
+            if isinstance(x, (VInt, VBool, VNone, VFloat)):
+                return VBool(FALSE)
+            raise Unsupported(f"membership of {x.kind} in a set of strings")
+        if isinstance(coll, VJsonKeys):
+            coll = VJson(coll.path)
+        if isinstance(x, VOmegaKey):
+            raise Unsupported("membership test of an unnamed key")
         if isinstance(coll, VJson):
             x = force(ctx, x)
             kind = self.node_class(ctx, coll)
@@ -641,6 +915,15 @@ class HookInterp(Interp):
             raise PyRaise("TypeError", [], "object has no len()")
         if isinstance(v, VJsonMapped):
             return VInt(self.site.length(v.path))
+        if isinstance(v, VKeySet):
+            return VInt(smt.sint(len(v.keys)))
+        if isinstance(v, VJsonKeys):
+            n = self.site.sym(f"nkeys {v.path}", "Int")
+            ctx.assume(smt.Le("0", n))
+            return VInt(n)
+        if isinstance(v, VKeyExpr) and v.op in ("inter", "rdiff"):
+            present = _sum([Ite(self.site.has(v.path, k), "1", "0") for k in sorted(v.keys)])
+            return VInt(present if v.op == "inter" else smt.Sub(smt.sint(len(v.keys)), present))
         raise Unsupported(f"len of {v}")
 
     def subscript_hook(self, ctx: Ctx, base: V, idx: V):
@@ -716,6 +999,26 @@ class HookInterp(Interp):
                 return VJson(self.site.child(f.path, key))
             return args[1] if len(args) > 1 else VNone()
 
+        if isinstance(f, VJsonMethod) and f.name == "keys":
+            node = VJson(f.path)
+            kind = self.node_class(ctx, node)
+            if kind != "obj":
+                raise PyRaise("AttributeError", [], f"a JSON {kind} has no method keys")
+            if args or kwargs:
+                raise PyRaise("TypeError", [], "keys() takes no arguments")
+            return VJsonKeys(f.path)
+        if isinstance(f, VSetMethod):
+            if len(args) != 1 or kwargs:
+                raise Unsupported(f"set.{f.name} signature")
+            other = force(ctx, args[0])
+            if self._const_keys(ctx, other) is None and self._json_keys(ctx, other) is None:
+                raise Unsupported(f"set.{f.name}({other.kind})")
+            if f.name in ("issuperset", "issubset", "isdisjoint"):
+                return self.set_relation(ctx, {"issuperset": "ge", "issubset": "le", "isdisjoint": "disjoint"}[f.name], f.recv, other)
+            if f.name in ("difference", "intersection"):
+                return self.set_binop(ctx, {"difference": "sub", "intersection": "and"}[f.name], f.recv, other)
+            raise Unsupported(f"set.{f.name}")
+
         if isinstance(f, VExternal):
             # frame condition of a hook: it may call converter.structure and pure builtins only
             self.site.__dict__.setdefault("frame_calls", [])
@@ -760,9 +1063,21 @@ class HookInterp(Interp):
                 if not is_any and not t:
                     return VBool(FALSE)
             return VBool(FALSE if is_any else TRUE)
-        if not isinstance(it, VJson):
+        if isinstance(it, VJsonKeys):
+            it = VJson(it.path)
+            kind = "obj"
+        elif isinstance(it, VJson):
+            kind = self.node_class(ctx, it)
+        else:
             raise Unsupported(f"{name} over {it}")
-        kind = self.node_class(ctx, it)
+        if kind == "obj":
+
+            def pred_term(key) -> str:
+                env2 = dict(v.env)
+                self.assign(ctx, g.target, key, env2, v.fi)
+                return self.truth_term(ctx, self.eval(ctx, e.elt, env2, v.fi))
+
+            return self.keys_anyall(ctx, is_any, it.path, pred_term)
         if kind != "arr":
             raise PyRaise("TypeError", [], f"{name}() over a JSON {kind}: elements are not the values the hook expects")
         S = self.site
@@ -794,6 +1109,11 @@ class HookInterp(Interp):
     def expr_hook(self, ctx: Ctx, e: ast.expr, env, fi):
         if isinstance(e, ast.GeneratorExp):
             return VGen(e, dict(env), fi)
+        if isinstance(e, ast.Set):
+            c = self._const_keys(ctx, VList([self.eval(ctx, x, env, fi) for x in e.elts]))
+            if c is None:
+                raise Unsupported("set display with a non-literal element")
+            return VKeySet(c)
         if isinstance(e, ast.ListComp):
             if len(e.generators) != 1 or e.generators[0].ifs or e.generators[0].is_async:
                 raise Unsupported("comprehension shape")
@@ -834,9 +1154,13 @@ class HookInterp(Interp):
     def getattr(self, ctx: Ctx, v: V, name: str) -> V:
         if isinstance(v, VOpaque):
             return VOpaque(f"{v.name}.{name}")
+        if isinstance(v, (VKeySet, VJsonKeys)):
+            if name in ("issuperset", "issubset", "isdisjoint", "difference", "intersection"):
+                return VSetMethod(v, name)
+            raise Unsupported(f"set.{name}")
         if isinstance(v, VJson):
-            if name == "get":
-                return VJsonMethod("get", v.path)
+            if name in ("get", "keys"):
+                return VJsonMethod(name, v.path)
             raise PyRaise("AttributeError", [], f"JSON value has no attribute {name}")
         return super().getattr(ctx, v, name)
 
